@@ -171,9 +171,9 @@ theorem cStmts_cons_ne (cm : Macros) (lv : Nat) (st : Stmt) (r : Stmts) (lb : Na
 /-- behind a `return` / `end` / `hold` / `break` / `continue` / `break_loop` / `jump` control does not go on -/
 theorem ends_items {cm : Macros} {st : Stmt} (he : endsStmt st = true) {lb : Nat} {s : St} {items : List LItem} {s' : St}
     (h : cStmt cm lb st s = .ok (items, s')) : falls items = false := by
-  have hop : ∀ (nm : String), Gen.opsEndFlow.contains nm = true → ∀ {s : St} {items : List LItem} {s' : St},
-      opStmt nm [] s = .ok (items, s') → falls items = false := by
-    intro nm hnm s items s' h
+  have hop : ∀ (nm : String) (ps : List Param), Gen.opsEndFlow.contains nm = true → ∀ {s : St} {items : List LItem} {s' : St},
+      opStmt nm ps s = .ok (items, s') → falls items = false := by
+    intro nm ps hnm s items s' h
     simp only [opStmt, bind_ok, pure_ok] at h
     obtain ⟨o, s1, h1, h2⟩ := h
     simp only [Prod.mk.injEq] at h2
@@ -187,9 +187,10 @@ theorem ends_items {cm : Macros} {st : Stmt} (he : endsStmt st = true) {lb : Nat
     show (!(Gen.opsEndFlow.contains Gen.op_jump)) = false
     decide
   cases st with
-  | ret => simp only [cStmt] at h; exact hop _ (by decide) h
-  | end_ => simp only [cStmt] at h; exact hop _ (by decide) h
-  | hold => simp only [cStmt] at h; exact hop _ (by decide) h
+  | op n ps => simp only [cStmt] at h; exact hop n ps (by simpa [endsStmt] using he) h
+  | ret => simp only [cStmt] at h; exact hop _ [] (by decide) h
+  | end_ => simp only [cStmt] at h; exact hop _ [] (by decide) h
+  | hold => simp only [cStmt] at h; exact hop _ [] (by decide) h
   | brk =>
     simp only [cStmt, brkStmt, bind_ok, getSt_ok] at h
     obtain ⟨s0, s1, h1, h2⟩ := h
